@@ -69,6 +69,29 @@ def spec_version(pv, sv, ts, rs, rip, rport, tsv, tip, tport, nonce, ua, sh, rel
     return out
 
 
+def _spec_parse_inv(raw):
+    """reference decoding of a well-formed inv payload (count as CompactSize, then count 36-byte entries of known
+    type, nothing else); None if it is not one"""
+    if not raw:
+        return None
+    b0 = raw[0]
+    width = {253: 2, 254: 4, 255: 8}.get(b0, 0)
+    if len(raw) < 1 + width:
+        return None
+    count = int.from_bytes(raw[1:1 + width], "little") if width else b0
+    body = raw[1 + width:]
+    if len(body) != 36 * count:
+        return None
+    rev = {v: k for k, v in INV_TYPES.items()}
+    items = []
+    for i in range(count):
+        tid = struct.unpack("<I", body[36 * i:36 * i + 4])[0]
+        if tid not in rev:
+            return None
+        items.append((rev[tid], body[36 * i + 4:36 * i + 36]))
+    return (count, items)
+
+
 def ref_recv(magic, stream):
     """reference receiver over the whole stream: ('ok', m, c, p, rest) | ('conn',) | ('value',)"""
     if len(stream) < 24:
@@ -677,6 +700,15 @@ def prop_oracle(c):
             return "payload of %d bytes: accepted=%s, MAX_SIZE=%d" % (n, r is not None, MAX_SIZE)
         return None
     U32, U64, U16 = 2 ** 32, 2 ** 64, 2 ** 16
+    if op == "parse_inv_payload":
+        raw = a[0]
+        want = _spec_parse_inv(raw)
+        if want is None:
+            return None
+        got = _inv_tuple(m.parse_inv_payload(raw))
+        if (got[0], [tuple(x) for x in got[1]]) != want:
+            return "parse_inv_payload returned %r for a well-formed inv payload holding %r" % (got, want)
+        return None
     if op == "version_rt":
         ts, sh, rp, tp, pv, sv, relay = a
         if not (_in(ts, U64) and _in(sh, U32) and _in(rp, U16) and _in(tp, U16) and _in(pv, U32) and _in(sv, U64)):
